@@ -577,6 +577,12 @@ def flatten_starred_displays(tree):
         def visit_Call(self, node):
             self.generic_visit(node)
             node.args = self._flat(node.args)
+            # N19: list((a, b)) is [a, b]; tuple([a, b]) is (a, b)
+            if isinstance(node.func, ast.Name) and node.func.id in ('list', 'tuple') and len(node.args) == 1 and not node.keywords \
+                    and isinstance(node.args[0], (ast.Tuple, ast.List)) and not any(isinstance(e, ast.Starred) for e in node.args[0].elts):
+                count[0] += 1
+                cls = ast.List if node.func.id == 'list' else ast.Tuple
+                return ast.copy_location(cls(elts=node.args[0].elts, ctx=ast.Load()), node)
             return node
     T().visit(tree)
     return count[0]
